@@ -1,6 +1,6 @@
 (* Props/C06.v - Prepared-statement parameters are bound as data, never as SQL. *)
 From Coq Require Import List NArith ZArith Lia Bool.
-From MM Require Import Lib.Bytes Model.Placeholders Model.Parse Proofs.PlaceholderProofs Proofs.ParseProofs Gen.FactsPackets.
+From MM Require Import Lib.Bytes Model.Placeholders Model.Parse Proofs.PlaceholderProofs Proofs.ParseProofs Gen.FactsPackets Gen.FactsConn.
 Import ListNotations.
 Open Scope N_scope.
 
@@ -8,7 +8,10 @@ Open Scope N_scope.
 Theorem c06_source_shape :
   translated_packets = true /\ prepared_find_params_ok = true /\ packets_encode_param_as_sql_ok = true /\
   packets_interpolate_by_position = true /\ connection_prepare_counts_with_find_params = true /\
-  types_column_type_codes = column_type_codes /\ packets_string_param_types = string_types.
+  types_column_type_codes = column_type_codes /\ packets_string_param_types = string_types /\
+  (* long data is attached by COM_STMT_SEND_LONG_DATA and discarded by every execution before the query runs *)
+  connection_connection_handle_stmt_execute_ok = true /\ connection_connection_handle_stmt_send_long_data_ok = true /\
+  connection_connection_handle_stmt_prepare_ok = true /\ connection_connection_handle_stmt_reset_ok = true.
 Proof. repeat split; reflexivity. Qed.
 
 (* the one-pass scanner recognises exactly the positions of the placeholder regex:
